@@ -12,7 +12,7 @@ H(name, ...) fields
 
 class H:
     def __init__(self, name, crate, tier="quick", twin=False, bounds="", timeout=(300, 3600),
-                 features=(), module="verif_proofs", expect_fail=False):
+                 features=(), module=None, expect_fail=False):
         self.name = name
         self.crate = crate
         self.tier = tier
@@ -20,7 +20,7 @@ class H:
         self.bounds = bounds
         self.timeout = timeout
         self.features = tuple(features)
-        self.module = module
+        self.module = module or DEFAULT_MODULE.get(crate, "verif_proofs")
 
     @property
     def path(self):
@@ -34,6 +34,16 @@ TR = "passkey-transports"
 PS = "public-suffix"
 
 PROPS = {}
+DEFAULT_MODULE = {"passkey-transports": "hid::verif_proofs"}
+
+
+def subst_hashmap(ws):
+    """std HashMap -> association-list model under cfg(kani) in the scratch copy of hid.rs (F4)."""
+    ok = ws.substitute("passkey-transports/src/hid.rs", "use std::collections::HashMap;",
+                       "#[cfg(not(kani))]\nuse std::collections::HashMap;\n#[cfg(kani)]\nuse crate::verif_model::HashMap;")
+    if not ok:
+        return "hid.rs no longer imports std::collections::HashMap by the expected line: channel-table harnesses cannot be built"
+    return None
 
 
 def prop(pid, **kw):
@@ -59,9 +69,15 @@ prop("C13",
 
 prop("C15",
      title="Decoders of untrusted input never crash or allocate out of proportion",
+     prepare=[subst_hashmap],
      harnesses=[
          H("c15_u2f_request_no_panic", T, bounds="every byte string of length 0..=80, unwind 12"),
          H("c15_u2f_request_no_panic_twin", T, twin=True, bounds="same"),
+         H("c15_hid_header_any_len", TR, bounds="one packet, every length 0..=70, all contents"),
+         H("c15_hid_one_packet_any_len", TR, bounds="fresh handler, one packet of every length 0..=70, all contents"),
+         H("c15_hid_one_packet_any_len_twin", TR, twin=True, bounds="same"),
+         H("c15_hid_two_packets_any_len", TR, bounds="two packets, each of every length 0..=70, all contents, any channels"),
+         H("c15_hid_three_packets_64", TR, bounds="three 64-byte packets, all contents"),
      ],
      functions=["passkey_types::u2f::Request::try_from(&[u8])", "RegisterRequest::try_from",
                 "AuthenticationRequest::try_from", "AuthenticationParameter::from(u8)"],
@@ -69,4 +85,65 @@ prop("C15",
      explanation="arbitrary symbolic buffers are fed to the real decoders; every panic, arithmetic overflow and "
                  "out-of-bounds access is a CBMC property check",
      outside=["CBOR and JSON decoders (ciborium / serde_json)", "inputs longer than the stated bounds"],
+     )
+
+import itertools
+
+
+def _scheds(k):
+    base = sum([[i, i] for i in range(k)], [])
+    return sorted(set(itertools.permutations(base)))
+
+
+def _c16_harnesses():
+    hs = []
+    for n in (0, 1, 56, 57, 58, 115, 116, 117, 175):
+        tier = "quick" if n in (0, 1, 56, 57, 58, 116) else "thorough"
+        hs.append(H("c16_sender_len_%d" % n, TR, tier=tier, timeout=(400, 3600),
+                    bounds="payload length exactly %d; all channel ids, all 9 commands, all payload bytes: bytes written by Message::send == reference wire image" % n))
+    for n in (0, 1, 56, 57, 58, 115, 116, 117, 174, 175, 176, 234, 293):
+        tier = "quick" if n in (0, 1, 56, 57, 58, 115, 116, 117, 175) else "thorough"
+        hs.append(H("c16_handler_len_%d" % n, TR, tier=tier,
+                    bounds="payload length exactly %d; channel id and command fixed, all payload bytes: reference wire image -> real ChannelHandler" % n))
+    for n in (0, 1, 56, 57, 58, 115, 116):
+        hs.append(H("c16_recv_len_%d" % n, TR,
+                    bounds="payload length exactly %d; all channel ids, command fixed, all payload bytes; Message::init/extend without the channel table" % n))
+    hs += [
+        H("c16_handler_twin", TR, twin=True, bounds="payload length 58"),
+        H("c16_sender_twin", TR, twin=True, bounds="payload length 58"),
+        H("c16_header_parse_all", TR, bounds="all channel ids, all 9 commands, every declared length 0..=65535, all body bytes; all sequence numbers 0..=127"),
+        H("c16_command_bytes", TR, bounds="all 9 commands, all 256 raw bytes"),
+        H("c16_new_size_validation", TR, bounds="every payload length 0..=70000 (contents irrelevant to Message::new)"),
+        H("c16_new_size_validation_twin", TR, twin=True, bounds="same"),
+        H("c16_extend_inductive_step", TR, bounds="one extend step from every receiver state with sequence <= 127, 57+59*sequence < payload_len <= 7609; lengths, flags and sequence number (no content reads)"),
+        H("c16_extend_step_content_seq0", TR, bounds="extend step at sequence 0, every payload_len 58..=7609, all 59 data bytes, content compared"),
+        H("c16_extend_step_content_seq1", TR, bounds="extend step at sequence 1, every payload_len, content compared"),
+        H("c16_extend_step_content_seq5", TR, tier="thorough", bounds="extend step at sequence 5, every payload_len, content compared"),
+        H("c16_extend_rejects_wrong_seq_or_channel", TR, bounds="same states; every other (channel, seq) pair"),
+        H("c16_stray_continuation_seq0", TR, bounds="continuation packet (seq 0, all data bytes) for an idle channel, before and while another channel's message is in progress"),
+        H("c16_stray_continuation_seq1", TR, bounds="continuation packet (seq 1, all data bytes) for an idle channel while another channel's message is in progress"),
+        H("c16_out_of_order_same_channel", TR, bounds="continuation with the wrong sequence number on the busy channel, all data bytes"),
+    ]
+    for sc in _scheds(2):
+        hs.append(H("c16_interleave2_" + "".join(map(str, sc)), TR,
+                    timeout=(400, 3600), bounds="2 channels (fixed distinct ids), 60-byte 2-packet messages with all payload bytes, schedule %s" % (sc,)))
+    for sc in _scheds(3):
+        hs.append(H("c16_interleave3_" + "".join(map(str, sc)), TR, tier="thorough",
+                    bounds="3 channels, 2-packet messages with all payload bytes, schedule %s" % (sc,)))
+    return hs
+
+
+prop("C16",
+     title="CTAPHID fragmentation and reassembly preserve every message, per channel",
+     prepare=[subst_hashmap],
+     harnesses=_c16_harnesses(),
+     functions=["passkey_transports::hid::Message::{new,send,to_packets,init,extend,is_complete}",
+                "PacketHeader::{encode,try_from,len}", "InitHeader::{try_from,encode}", "ContHeader::{from,encode}",
+                "ChannelHandler::handle_packet", "Command::{encode,try_from}"],
+     stubs=["std::collections::HashMap<u32, Message> -> 4-slot association list model (passkey-transports/src/verif_model.rs, cfg(kani) only)"],
+     explanation="sender -> 64-byte wire image -> receiver on the real code, one harness per concrete payload length around "
+                 "every packet boundary, with all other inputs symbolic; long messages by one inductive extend step; channel "
+                 "table with the interleaving as a symbolic schedule",
+     outside=["payload lengths other than the listed instances are covered end-to-end only by the inductive step + the size validation",
+              "the real std HashMap is trusted to behave as a map", "four concurrently transmitting channels"],
      )
